@@ -6,6 +6,7 @@ import (
 	"math/rand"
 	"os"
 	"path/filepath"
+	"runtime"
 	"sort"
 	"strconv"
 	"strings"
@@ -168,6 +169,7 @@ func (h *Harness) minimise(t *testing.T, seed int64, tier string, class string, 
 			return false, c
 		}
 		runs++
+		dropPools()
 		r := h.runOnce(t, seed, tier, &c)
 		if r.violClass == class {
 			return true, tapesOf(r)
@@ -256,6 +258,13 @@ func (h *Harness) minimise(t *testing.T, seed int64, tier string, class string, 
 		}
 	}
 	return best, runs
+}
+
+// dropPools empties every sync.Pool (two collections: primary and victim cache), so that a re-execution does
+// not depend on objects that earlier runs of this process left in package-level pools of the code under test.
+func dropPools() {
+	runtime.GC()
+	runtime.GC()
 }
 
 func envInt(name string, def int64) int64 {
@@ -366,6 +375,15 @@ func Main(t *testing.T, h Harness) {
 				res.Samples = append(res.Samples, sampleOf(r, s))
 			}
 		}
+		if r.violClass != "" && mode != "selftest" {
+			// does it depend on state that earlier runs left behind in the process (e.g. a package-level sync.Pool)?
+			dropPools()
+			tp := tapesOf(r)
+			if again := h.runOnce(t, s, tier, &tp); again.violClass != r.violClass {
+				res.Probes["violation_depended_on_earlier_runs"]++
+				r.violClass = ""
+			}
+		}
 		if r.violClass != "" {
 			if v := classes[r.violClass]; v != nil {
 				v.Count++
@@ -377,6 +395,7 @@ func Main(t *testing.T, h Harness) {
 				if mode != "selftest" {
 					best, v.MinRun = h.minimise(t, s, tier, r.violClass, best, 300)
 				}
+				dropPools()
 				fr := h.runOnce(t, s, tier, &best)
 				if fr.violClass != r.violClass {
 					// should not happen: minimise only accepts reproducing tapes
